@@ -24,7 +24,7 @@ import sigtree as st
 from common import frac_str, run_driver
 
 TRUSTED = [
-    'Lean 4.33.0 kernel; axioms of every theorem in Props/C05.lean within {propext, Classical.choice, Quot.sound}',
+    'Lean 4.33.0 kernel; axioms of every theorem in Props/C05*.lean within {propext, Classical.choice, Quot.sound}',
     'harness/relaxmodel.py, harness/sigtree.py, harness/props/c05.py (extraction of the built Problem\'s data; the expected shape of the '
     'three elementwise constraints of relative_dual_sage_poly_cone is rebuilt from the model\'s even/odd mask)',
     'ECOS in the audit stream only (statuses other than solved are inconclusive; tolerance 1e-5 relative)',
